@@ -85,6 +85,12 @@ func hint(m protoreflect.Message, seed int) {
 	case "smartcore.traits.FanSpeed":
 		presets := []string{"low", "med", "high", "full"}
 		m.Set(m.Descriptor().Fields().ByName("preset"), protoreflect.ValueOfString(presets[seed%len(presets)]))
+	case "smartcore.traits.ModeValues":
+		// the generic generator leaves maps empty; mode values without a value change nothing
+		mf := m.Descriptor().Fields().ByName("values")
+		mp := m.Mutable(mf).Map()
+		mp.Set(protoreflect.ValueOfString("m1").MapKey(), protoreflect.ValueOfString(fmt.Sprintf("v%d", seed%3)))
+		mp.Set(protoreflect.ValueOfString(fmt.Sprintf("m%d", 2+seed%2)).MapKey(), protoreflect.ValueOfString("x"))
 	case "smartcore.traits.OpenClosePositions":
 		// a preset name must be one the model was configured with (the default model has none)
 		m.Clear(m.Descriptor().Fields().ByName("preset"))
@@ -511,6 +517,27 @@ func runCase(c tcase) (fails [][2]string, okUpdates int) {
 						fail("rejected-update-emitted", fmt.Sprintf("%s returned %v but stream %d received %v", t.upd.full(), uerr, i, st.got))
 					}
 					st.got, st.names = nil, nil
+				}
+				// a server that refuses that mask looks at masks. For it a mask that is THERE and names nothing means
+				// "write no field" (as on the resources underneath): whatever it answers, the register reads as before
+				// and no stream hears of it
+				if uerr != nil {
+					req2 := proto.Clone(req.Interface()).ProtoReflect()
+					setMask(req2, "update_mask")
+					resp2 := newOf(t.res).Interface()
+					uerr2 := conns[t.upd.svc.Desc.ServiceName].Invoke(ctx, t.upd.full(), req2.Interface(), resp2)
+					verifrt.WaitIdle()
+					after2, gerr2 := get("")
+					switch {
+					case gerr2 != nil:
+						fail("get-error", gerr2.Error())
+					case !proto.Equal(after2, cur):
+						fail("empty-mask-update-changed-value", fmt.Sprintf("%s with an update mask naming no field returned %v and Get changed from %v to %v", t.upd.full(), uerr2, cur, after2))
+						cur = after2
+					}
+					for _, st := range streams {
+						st.got, st.names = nil, nil
+					}
 				}
 			}
 		}
